@@ -5,11 +5,16 @@
    `C38 runsyncspec <func> <timeout|~>`  → `ok outcome`          Spec.runSyncSpec
    `C38 xthread <self> [[call,running|~,id]|[inject,id]|[turn],…]` → `ok [soon|threadsafe,…] [ran…] [ready…] T|F`
    `C38 xspec [sched…] [ran…]`           → `ok [clause,…]`       XThread.violations
+   `C38 rsseq T|F <pref> [op,…] <fuel>`  → `ok [rec,…]`          RS.runOps on a fresh loop (first arg: legacy timeout_callback)
+   `C38 rsspec [op,…] [rec,…]`           → `ok [clause,…]`       Spec.rsViolations of observed records
+   op = [call,fn,timeout|~] | [advance,d] | [runFor,d]; fn = [raises]|[retNone]|[retValue]|[coro,d|~,T|F]|[fut,d|~,T|F]|[stopsLoop,d]
+   rec = [call,outcome,cancelled,pending,creq,saw,returned,dt,[[id,when],…],nready,logs] | [runFor,returned,dt,[…],nready,logs]
    tbl = [[[act,…],fin],…]; act = [addCb,k] | [addTmo,form,arg,k,name] | [rmTmo,name] | [busy,d] | [addFut,fid,k] |
    [resolve,fid,T|F]; func = [raises] | [retNone] | [retValue] | [awaitable,d|~,T|F] | [stopsLoop,d]
 -/
 import TornadoModel.Base.Wire
 import TornadoModel.C38.Spec
+import TornadoModel.C38.RSSpec
 import TornadoModel.C38.XThread
 namespace TornadoModel.C38.Drv
 open TornadoModel TornadoModel.Wire TornadoModel.C38
@@ -92,6 +97,56 @@ def encOutcome : Outcome → V
   | .result => .atom "result" | .userError => .atom "userError" | .badYield => .atom "badYield"
   | .timeoutError => .atom "timeoutError" | .runtimeError => .atom "runtimeError" | .hang => .atom "hang"
 
+
+def decOutcome : V → Option Outcome
+  | .atom "result" => some .result | .atom "userError" => some .userError | .atom "badYield" => some .badYield
+  | .atom "timeoutError" => some .timeoutError | .atom "runtimeError" => some .runtimeError | .atom "hang" => some .hang
+  | _ => none
+
+def decOptNat (v : V) : Option (Option Nat) := if v.isNone then some none else v.nat?.map some
+
+def decFn (v : V) : Option RS.Fn := do
+  match ← v.list? with
+  | [.atom "raises"] => pure .raises
+  | [.atom "retNone"] => pure .retNone
+  | [.atom "retValue"] => pure .retValue
+  | [.atom "coro", d, ok] => pure (.coro (← decOptNat d) (← ok.bool?))
+  | [.atom "fut", d, ok] => pure (.fut (← decOptNat d) (← ok.bool?))
+  | [.atom "stopsLoop", d] => pure (.stopsLoop (← d.nat?))
+  | _ => none
+
+def decRsOp (v : V) : Option RS.Op := do
+  match ← v.list? with
+  | [.atom "call", f, t] => pure (.call (← decFn f) (← decOptNat t))
+  | [.atom "advance", d] => pure (.advance (← d.nat?))
+  | [.atom "runFor", d] => pure (.runFor (← d.nat?))
+  | _ => none
+
+def encPairs (l : List (Nat × Nat)) : V := .list (l.map (fun p => .list [n p.1, n p.2]))
+
+def decPair (v : V) : Option (Nat × Nat) := do
+  match ← v.list? with
+  | [a, b] => pure (← a.nat?, ← b.nat?)
+  | _ => none
+
+def encRec (r : RS.Rec) : V :=
+  if r.isCall then
+    .list [.atom "call", encOutcome r.out, V.ofBool r.cancelled, V.ofBool r.pending, V.ofBool r.creq, V.ofBool r.saw,
+           V.ofBool r.returned, n r.dt, encPairs r.timers, n r.nready, n r.logs]
+  else .list [.atom "runFor", V.ofBool r.returned, n r.dt, encPairs r.timers, n r.nready, n r.logs]
+
+def decRec (v : V) : Option RS.Rec := do
+  match ← v.list? with
+  | [.atom "call", o, c, p, q, s, r, dt, ts, nr, lg] =>
+    pure { isCall := true, out := ← decOutcome o, cancelled := ← c.bool?, pending := ← p.bool?, creq := ← q.bool?,
+           saw := ← s.bool?, returned := ← r.bool?, dt := ← dt.nat?, timers := ← (← ts.list?).mapM decPair,
+           nready := ← nr.nat?, logs := ← lg.nat? }
+  | [.atom "runFor", r, dt, ts, nr, lg] =>
+    pure { isCall := false, out := .result, cancelled := false, pending := false, creq := false, saw := false,
+           returned := ← r.bool?, dt := ← dt.nat?, timers := ← (← ts.list?).mapM decPair, nready := ← nr.nat?,
+           logs := ← lg.nat? }
+  | _ => none
+
 def decXOp (v : V) : Option XThread.Op := do
   match ← v.list? with
   | [.atom "call", r, id] => if r.isNone then pure (.call none (← id.nat?)) else pure (.call (some (← r.nat?)) (← id.nat?))
@@ -132,6 +187,15 @@ def handle (toks : List String) : String :=
     | some "runsyncspec", [f, t] =>
       match decFunc f, decTimeout t with
       | some f, some t => ok [encOutcome (Spec.runSyncSpec f t)]
+      | _, _ => err "bad-arg"
+    | some "rsseq", [legacy, pref, ops, fuel] =>
+      match legacy.bool?, pref.list? >>= (·.mapM V.nat?), ops.list? >>= (·.mapM decRsOp), fuel.nat? with
+      | some legacy, some pref, some ops, some fuel =>
+        ok [.list ((RS.runOps fuel (RS.fresh legacy pref) ops).2.map encRec)]
+      | _, _, _, _ => err "bad-arg"
+    | some "rsspec", [ops, recs] =>
+      match ops.list? >>= (·.mapM decRsOp), recs.list? >>= (·.mapM decRec) with
+      | some ops, some recs => ok [.list ((Spec.rsViolations true ops recs).map V.atom)]
       | _, _ => err "bad-arg"
     | some "xthread", [self, ops] =>
       match self.nat?, ops.list? >>= (·.mapM decXOp) with
